@@ -1,0 +1,52 @@
+#ifndef _LIBTHEO_VM_VERIF_HOOK_HPP_
+#define _LIBTHEO_VM_VERIF_HOOK_HPP_
+
+/**
+ * Verification hook points; compiled in only with -DTHEO_VERIF.
+ * Without the define every THEO_VERIF_POINT expands to nothing.
+ * With it, a point calls the installed callback (if any) with the
+ * site id and two site specific numbers; the library never reads
+ * anything back from the callback.
+ */
+#ifdef THEO_VERIF
+
+namespace Theo {
+namespace verif {
+
+enum Site {
+  SCAN_TOKEN = 1,      // a = lexer stack depth, b = tokens so far
+  MACRO_PASS = 2,      // a = pass index, b = stream length
+  MACRO_PASS_END = 3,  // a = passes allowed, b = changed flag
+  MACRO_DETECT = 4,    // a = start index, b = stream length
+  LR_ACTION = 5,       // a = state stack height
+  LR_FIRST_ROUND = 6,
+  LR_HULL_ROUND = 7,   // a = set size
+  LR_ELEMENTS = 8,     // a = state index, b = states so far
+  PARSE_P = 9,
+  PARSE_TRAILING = 12,
+  GEN_NODE = 13,       // a = node type
+  VM_STEP = 14,        // a = instruction pointer
+  MACRO_EXTRACT = 15   // a = token position
+};
+
+typedef void (*PointHook)(int site, long a, long b);
+inline PointHook point_hook = nullptr;
+
+}  // namespace verif
+}  // namespace Theo
+
+#define THEO_VERIF_POINT(site, a, b)                                   \
+  do {                                                                 \
+    if (::Theo::verif::point_hook)                                     \
+      ::Theo::verif::point_hook(::Theo::verif::site, (long)(a), (long)(b)); \
+  } while (0)
+
+#else
+
+#define THEO_VERIF_POINT(site, a, b) \
+  do {                               \
+  } while (0)
+
+#endif
+
+#endif
